@@ -13,7 +13,7 @@ namespace {
 struct Cfg { int cap, P, n, cons; };  // capacity, producers, adds per producer, consumer program
 std::vector<Cfg> g_cfgs;
 
-constexpr int MAXP = 3, MAXN = 3;
+constexpr int MAXP = 4, MAXN = 3;  // producer id MAXP-1 is never a thread: it labels the elements of a sequential pre-rotation
 enum Where { WITH_PRODUCER = 0, TAKEN = 1, DROPPED = 2, DISCARDED = 3 };
 
 struct G {
@@ -93,6 +93,10 @@ void setup(vf::Options &o) {
           if (big && P == 3 && n == 2 && cap == 3) continue;  // largest corner: does not finish at any useful bound
           g_cfgs.push_back({cap, P, n, cons});
         }
+  // consumer program 4: the buffer is first rotated (capacity adds and takes by the main thread) so that the queued
+  // elements straddle the end of the slot array, then consumed two at a time: Consume(n) with 1 < n < size across
+  // the wrap-around seam (CircularBufferRange::Take's second branch with a partial second span)
+  if (set == "big") { g_cfgs.push_back({3, 2, 2, 4}); g_cfgs.push_back({3, 3, 1, 4}); }
   if (!o.get("cfg").empty()) {
     Cfg c;
     sscanf(o.get("cfg").c_str(), "%d,%d,%d,%d", &c.cap, &c.P, &c.n, &c.cons);
@@ -114,6 +118,14 @@ void run(vf::Ctx &c) {
     bool result[MAXP][MAXN] = {};
     bool violation_fail[MAXP][MAXN] = {};
     std::vector<std::unique_ptr<Elem>> kept[MAXP], taken;
+    if (cfg.cons == 4) {
+      for (int i = 0; i < cfg.cap; ++i) {
+        std::unique_ptr<Elem> e(new Elem(MAXP - 1, i));
+        gg.started++;
+        if (!buf.Add(e)) vfs::fail("C11:spurious-full", "a sequential Add into an empty buffer failed");
+      }
+      take_all(buf, buf.size(), taken);
+    }
     std::vector<std::thread> prod;
     for (int p = 0; p < cfg.P; ++p)
       prod.emplace_back([&, p] {
@@ -148,6 +160,7 @@ void run(vf::Ctx &c) {
           case 1: if (!buf.empty()) take_all(buf, 1, taken); break;
           case 2: { auto r = buf.Peek(); take_all(buf, r.size(), taken); break; }
           case 3: if (round == 0) buf.Clear(); else take_all(buf, buf.size(), taken); break;
+          case 4: { size_t sz = buf.size(); take_all(buf, sz < 2 ? sz : 2, taken); break; }
         }
       }
     });
@@ -168,7 +181,7 @@ void run(vf::Ctx &c) {
         if (!result[p][i] && w != WITH_PRODUCER) vfs::fail("C11:failed-add-consumed", vf::sfmt("Add(%d,%d) failed but the element was consumed", p, i));
       }
     // per-producer order
-    int last[MAXP] = {-1, -1, -1};
+    int last[MAXP] = {-1, -1, -1, -1};
     outcome += "|";
     for (int t : gg.log) {
       int p = t / 16, i = t % 16;
